@@ -282,6 +282,30 @@ def shapes_design(j):
     return block
 
 
+def make_decoy():
+    """a small design that every one of the six passes changes visibly; it is the WORKING block while
+    a pass is applied to another block given explicitly with block=b"""
+    pyrtl.reset_working_block()
+    a = pyrtl.Input(2, 'da')
+    b = pyrtl.Input(2, 'db')
+    t = a ^ b
+    o1 = pyrtl.Output(2, 'do1')
+    o1 <<= (t | a) & t.nand(b)
+    o2 = pyrtl.Output(6, 'do2')
+    o2 <<= pyrtl.concat(a, t, b)
+    o3 = pyrtl.Output(2, 'do3')
+    o3 <<= pyrtl.concat(a, b)[::2]
+    o4 = pyrtl.Output(2, 'do4')
+    o4 <<= t
+    blk = pyrtl.working_block()
+    blk.sanity_check()
+    return blk, snapshot(blk)
+
+
+def fingerprint(block):
+    return (frozenset(str(n) for n in block.logic), frozenset(w.name for w in block.wirevector_set))
+
+
 def build_design(ctx, i, kind):
     rng = ctx.sub_rng('design', i, kind)
     exhaustive = False
@@ -540,6 +564,8 @@ def run(ctx):
     plan = [('shapes', N_SHAPES)] + (
         [('directed', 18), ('generic', 9), ('synth', 5), ('logic', 7), ('raw', 7)] if quick else
         [('directed', 60), ('generic', 90), ('synth', 40), ('logic', 60), ('raw', 60)])
+    decoy, decoy_snap = make_decoy()
+    decoy_fp = fingerprint(decoy)
     cases = []
     exprs = []
     extra_exprs = []       # spec_case of real results (sampled)
@@ -570,9 +596,29 @@ def run(ctx):
             runs = []
             for si, ps in enumerate(pss):
                 restore(block, snap)
-                pyrtl.set_working_block(block, no_sanity_check=True)
+                # half of the cases: the block is passed explicitly (block=b) while a DECOY is the working block
+                explicit = (len(cases) + si) % 2 == 1
+                if explicit:
+                    restore(decoy, decoy_snap)
+                    pyrtl.set_working_block(decoy, no_sanity_check=True)
+                else:
+                    pyrtl.set_working_block(block, no_sanity_check=True)
                 views = []
                 raised_at, err = run_real(block, ps, views)
+                if explicit:
+                    ctx.count('block_argument', 'explicit block= with a decoy working block')
+                    if fingerprint(decoy) != decoy_fp:
+                        ctx.spec_violation('%s:decoy-working-block-changed' % PASSES[ps[0]],
+                                           'passes %s applied with block=b changed the unrelated working block '
+                                           '(block argument not honoured)' % [PASSES[p] for p in ps],
+                                           {'seed': ctx.seed, 'design': i, 'kind': kind,
+                                            'passes': [PASSES[p] for p in ps],
+                                            'decoy_before': sorted(decoy_fp[0]),
+                                            'decoy_after': sorted(str(n) for n in decoy.logic)})
+                        restore(decoy, decoy_snap)
+                    pyrtl.set_working_block(block, no_sanity_check=True)
+                else:
+                    ctx.count('block_argument', 'working block')
                 r = {'ps': ps, 'before_last': views[0] if views else None, 'raised_at': raised_at, 'err': err, 'sane': None, 'sane_err': None,
                      'trace': None, 'mem': None}
                 if raised_at is None:
